@@ -459,12 +459,21 @@ impl Check for C12 {
             }
         }
 
+        // soft stops only (never a verdict): each phase gets a share of the wall-clock budget so that
+        // a slow machine cuts every phase a little instead of starving the last one
+        let phase_cli = |share: f64| {
+            let mut c = cli.clone();
+            c.budget_s = cli.budget_s * share;
+            c
+        };
+        let (cli_a, cli_b) = (phase_cli(0.5), phase_cli(0.7));
+
         // ---- phase A: exhaustive, event-time structures (dynamic job queue; no randomness) ----
         let jobs = if phases.contains('a') { event_time_jobs(&dp) } else { Vec::new() };
         let next = AtomicUsize::new(0);
         let all_complete = AtomicBool::new(true);
         {
-            let (jobs, next, all_complete, dp) = (&jobs, &next, &all_complete, &dp);
+            let (jobs, next, all_complete, dp, cli_a) = (&jobs, &next, &all_complete, &dp, &cli_a);
             shards(cli, nthreads, st, |_shard, _rng, st| {
                 let mut sh = Shard::new(DISTINCT_CAP / 2 / nthreads);
                 loop {
@@ -472,7 +481,7 @@ impl Check for C12 {
                     if j >= jobs.len() {
                         break;
                     }
-                    if cli.expired() || !run_job(&jobs[j], dp, cli, st, &mut sh) {
+                    if cli_a.expired() || !run_job(&jobs[j], dp, &cli_a, st, &mut sh) {
                         all_complete.store(false, Ordering::SeqCst);
                         st.count("stopped_by_time_budget");
                         break;
@@ -491,7 +500,7 @@ impl Check for C12 {
         shards(cli, nthreads, st, |_shard, rng, st| {
             let mut sh = Shard::new(DISTINCT_CAP / 2 / nthreads + st.distinct.len());
             for k in 0..per {
-                if k % 256 == 0 && cli.expired() {
+                if k % 256 == 0 && cli_b.expired() {
                     st.count("stopped_by_time_budget");
                     break;
                 }
@@ -574,7 +583,7 @@ impl Check for C12 {
         st.notes.push(format!("fake-clock reads observed inside StreamAlphaNode::process_event: {} over {} calls", reads, calls));
     }
 
-    fn replay(&self, _cli: &Cli, case: &Json) -> Vec<Violation> {
+    fn replay(&self, cli: &Cli, case: &Json) -> Vec<Violation> {
         let Some(c) = Case::from_json(case) else {
             return vec![Violation {
                 clause: "harness".into(),
@@ -585,6 +594,9 @@ impl Check for C12 {
         };
         if matches!(c, Case::Node { .. }) && !clock::available() {
             out!("INCONCLUSIVE property={} replay of an alpha_node case needs the clock shim (export VERIF_CLOCK_SHIM=/verif/shim/libverifclock.so)", ID);
+            if cli.replay.is_some() {
+                std::process::exit(3); // direct --replay: inconclusive, not "no violation"
+            }
             return vec![];
         }
         let r = pan::catch_frames(|| run_case(&c, 0));
